@@ -20,7 +20,7 @@ case "$demo" in
   *) b=skip; c=skip ;;
 esac
 rm -f "$W/mut/jen/seeded_demo_test.go"
-out=$(VERIF_REPO="$W/mut" "$VERIF_ROOT/bin/check" "$P" "$TIER" 2>&1); rc=$?
+out=$(VERIF_REPO="$W/mut" VERIF_EVIDENCE_DIR="$W/evidence" "$VERIF_ROOT/bin/check" "$P" "$TIER" 2>&1); rc=$?
 rule=$(echo "$out" | grep -m1 -A1 '^VIOLATION' | tail -1 | sed 's/^ *//' | cut -c1-160)
 echo "SEEDED $P-$N a_suite_passes=$a b_demo_fails=$b c_demo_passes_clean=$c check_exit=$rc $rule"
 [ -n "${SEEDED_VERBOSE:-}" ] && echo "$out" | tail -15
